@@ -54,6 +54,78 @@ enum Ty {
     Big,
     Bx,
     Str,
+    A16,
+    A32,
+    A64x,
+    A4k,
+    Pd,
+    Pdb,
+}
+
+/// over-aligned results whose LAST bytes are significant
+#[repr(align(32))]
+#[derive(Copy, Clone)]
+struct A32([u8; 40]);
+#[repr(align(64))]
+#[derive(Copy, Clone)]
+struct A64x([u8; 65]);
+#[repr(align(4096))]
+#[derive(Copy, Clone)]
+struct A4k([u8; 100]);
+
+/// results whose destructor panics (not heap-owning / heap-owning)
+struct PanicOnDrop(u64);
+impl Drop for PanicOnDrop {
+    fn drop(&mut self) {
+        panic!("probe: the result's destructor panics ({})", self.0);
+    }
+}
+impl PanicOnDrop {
+    /// take the value apart without running the destructor (what a careful caller does)
+    fn disarm(self) -> u64 {
+        let v = self.0;
+        core::mem::forget(self);
+        v
+    }
+}
+struct PanicOnDropBox(Box<u64>);
+impl Drop for PanicOnDropBox {
+    fn drop(&mut self) {
+        panic!("probe: the heap-owning result's destructor panics ({})", *self.0);
+    }
+}
+impl PanicOnDropBox {
+    fn disarm(self) -> u64 {
+        let b = unsafe { core::ptr::read(&self.0) };
+        core::mem::forget(self);
+        *b
+    }
+}
+
+fn pattern<const N: usize>(t: u64) -> [u8; N] {
+    let mut b = [0u8; N];
+    for (i, x) in b.iter_mut().enumerate() {
+        *x = (t as usize * 7 + i * 13 + 1) as u8;
+    }
+    b
+}
+fn mk_a16(t: u64) -> u128 {
+    ((v64(t) as u128) << 64) | (v64(t + 1) as u128)
+}
+fn mk_a32(t: u64) -> A32 {
+    A32(pattern(t))
+}
+fn mk_a64x(t: u64) -> A64x {
+    A64x(pattern(t))
+}
+fn mk_a4k(t: u64) -> A4k {
+    A4k(pattern(t))
+}
+fn mk_pd(t: u64) -> PanicOnDrop {
+    PanicOnDrop(v64(t))
+}
+fn mk_pdb(t: u64) -> PanicOnDropBox {
+    PanicOnDropBox(Box::new(v64(t).wrapping_add(7)))
 }
 
 #[repr(align(64))]
@@ -72,6 +144,12 @@ enum Hd {
     Big(JoinHandle<[u64; 512]>),
     Bx(JoinHandle<Box<u64>>),
     Str(JoinHandle<String>),
+    A16(JoinHandle<u128>),
+    A32(JoinHandle<A32>),
+    A64x(JoinHandle<A64x>),
+    A4k(JoinHandle<A4k>),
+    Pd(JoinHandle<PanicOnDrop>),
+    Pdb(JoinHandle<PanicOnDropBox>),
 }
 
 #[derive(Copy, Clone)]
@@ -228,6 +306,12 @@ fn spawn_one(slot: usize, tag: u64, sp: Spec, hold: u8) -> tiny_std::Result<Hd> 
         Ty::Big => Hd::Big(spawn(move || body(slot, tag, p, hold, mk_big))?),
         Ty::Bx => Hd::Bx(spawn(move || body(slot, tag, p, hold, mk_box))?),
         Ty::Str => Hd::Str(spawn(move || body(slot, tag, p, hold, mk_str))?),
+        Ty::A16 => Hd::A16(spawn(move || body(slot, tag, p, hold, mk_a16))?),
+        Ty::A32 => Hd::A32(spawn(move || body(slot, tag, p, hold, mk_a32))?),
+        Ty::A64x => Hd::A64x(spawn(move || body(slot, tag, p, hold, mk_a64x))?),
+        Ty::A4k => Hd::A4k(spawn(move || body(slot, tag, p, hold, mk_a4k))?),
+        Ty::Pd => Hd::Pd(spawn(move || body(slot, tag, p, hold, mk_pd))?),
+        Ty::Pdb => Hd::Pdb(spawn(move || body(slot, tag, p, hold, mk_pdb))?),
     })
 }
 
@@ -257,6 +341,13 @@ fn join_digest(h: Hd) -> Option<u64> {
         }),
         Hd::Bx(h) => h.join().map(|v| fnv(&(*v).to_le_bytes(), FNV0)),
         Hd::Str(h) => h.join().map(|v| fnv(v.as_bytes(), FNV0)),
+        Hd::A16(h) => h.join().map(|v| fnv(&v.to_le_bytes(), FNV0)),
+        Hd::A32(h) => h.join().map(|v| fnv(&v.0, FNV0)),
+        Hd::A64x(h) => h.join().map(|v| fnv(&v.0, FNV0)),
+        Hd::A4k(h) => h.join().map(|v| fnv(&v.0, FNV0)),
+        // the joiner owns the value now; running its panicking destructor is the caller's business
+        Hd::Pd(h) => h.join().map(|v| fnv(&v.disarm().to_le_bytes(), FNV0)),
+        Hd::Pdb(h) => h.join().map(|v| fnv(&v.disarm().to_le_bytes(), FNV0)),
     }
 }
 
@@ -312,6 +403,12 @@ fn parse_spec(s: &str) -> Option<Spec> {
         "big" => Ty::Big,
         "box" => Ty::Bx,
         "str" => Ty::Str,
+        "a16" => Ty::A16,
+        "a32" => Ty::A32,
+        "a64x" => Ty::A64x,
+        "a4k" => Ty::A4k,
+        "pd" => Ty::Pd,
+        "pdb" => Ty::Pdb,
         _ => return None,
     };
     let kind = it.next()?.as_bytes();
@@ -902,6 +999,8 @@ static N_RUNS: [AtomicU32; MAXN] = [const { AtomicU32::new(0) }; MAXN];
 trait NV: Send + Sized + 'static {
     fn mk(t: u64) -> Self;
     fn digest(&self) -> u64;
+    /// what the joiner does with the value it got
+    fn finish(self) {}
 }
 impl NV for u64 {
     fn mk(t: u64) -> Self {
@@ -909,6 +1008,28 @@ impl NV for u64 {
     }
     fn digest(&self) -> u64 {
         fnv(&self.to_le_bytes(), FNV0)
+    }
+}
+impl NV for PanicOnDrop {
+    fn mk(t: u64) -> Self {
+        mk_pd(t)
+    }
+    fn digest(&self) -> u64 {
+        fnv(&self.0.to_le_bytes(), FNV0)
+    }
+    fn finish(self) {
+        let _ = self.disarm();
+    }
+}
+impl NV for PanicOnDropBox {
+    fn mk(t: u64) -> Self {
+        mk_pdb(t)
+    }
+    fn digest(&self) -> u64 {
+        fnv(&(*self.0).to_le_bytes(), FNV0)
+    }
+    fn finish(self) {
+        let _ = self.disarm();
     }
 }
 impl NV for Box<u64> {
@@ -941,6 +1062,7 @@ fn record_join<T: NV>(slot: usize, r: Option<T>) {
         Some(v) => {
             N_DIGEST[slot].store(v.digest(), SeqCst);
             N_JOIN[slot].store(1, SeqCst);
+            v.finish();
         }
         None => N_JOIN[slot].store(2, SeqCst),
     }
@@ -1097,6 +1219,8 @@ fn mode_nest(args: &[&str]) -> i32 {
     match args[1] {
         "u64" => nest_spawn::<u64>(0),
         "box" => nest_spawn::<Box<u64>>(0),
+        "pd" => nest_spawn::<PanicOnDrop>(0),
+        "pdb" => nest_spawn::<PanicOnDropBox>(0),
         _ => return usage(),
     }
     // every thread that was created must have started and gone (a child dropped at once may start late)
